@@ -43,6 +43,24 @@ def canon(x):
 # structural queries
 # --------------------------------------------------------------------------
 
+def _numeric_composite(out):
+    """A combination of components of which some have no analytic derivative: the library differentiates the
+    COMBINED value of those components numerically (plus(plus(f, g), h) with only h analytic takes the central
+    difference of f+g), so the rounding of the combination itself (additions, products) enters the difference
+    quotient as well, not only the rounding of the leaves."""
+    c = list(out.c)
+    fact = 1.0
+    changed = False
+    for k in range(1, len(c)):
+        fact *= k
+        if c[k].u > 0 and math.isfinite(c[k].u):
+            lower = c[k - 1]
+            extra = (8.0 * EPS * lower.e * (fact / k) / NUM_H + 4.0 * (lower.u if math.isfinite(lower.u) else 0.0) * (fact / k) / NUM_H) / fact
+            c[k] = EN(c[k].v, c[k].e, c[k].u + extra)
+            changed = True
+    return Jet(c) if changed else out
+
+
 def walk_simple(pd):
     """yield every simple node in a potdef (pre-order)"""
     for rg in pd["ranges"]:
@@ -159,16 +177,16 @@ class Ref(object):
                 out = self.potdef(b["args"][0], x, trace)
                 for a in b["args"][1:]:
                     out = out + self.potdef(a, x, trace)
-                return out
+                return _numeric_composite(out)
             if m == "product":
                 out = self.potdef(b["args"][0], x, trace)
                 for a in b["args"][1:]:
                     out = out * self.potdef(a, x, trace)
-                return out
+                return _numeric_composite(out)
             if m == "pow":
                 a = self.potdef(b["args"][0], x, trace)
                 p = self.potdef(b["args"][1], x, trace)
-                return _jpow(a, p)
+                return _numeric_composite(_jpow(a, p))
             if m == "trans":
                 return self.potdef(b["args"][0], x + b["x"], trace)
             if m == "spline":
@@ -194,6 +212,7 @@ class Ref(object):
         if has == 0:
             c0 = c[0]
             u1 = 8.0 * EPS * c0.e / NUM_H + NUM_H * NUM_H * abs(full.d(3).v) / 24.0 + 4 * c0.u / NUM_H
+            u1 += 4.0 * EPS * abs(c[1].v) + 1e-300    # never exactly 0: marks the component as numerically differentiated
             c[1] = EN(c[1].v, c[1].e, c[1].u + u1)
             for k in range(2, n + 1):
                 # a numerical derivative of a numerical derivative: unreliable
@@ -202,6 +221,7 @@ class Ref(object):
             if n >= 2:
                 d1 = full.d(1)
                 u2 = 8.0 * EPS * d1.e / NUM_H + NUM_H * NUM_H * abs(full.d(4).v) / 24.0 + 4 * d1.u / NUM_H
+                u2 += 4.0 * EPS * abs(full.d(2).v) + 1e-300
                 c[2] = EN(c[2].v, c[2].e, c[2].u + u2 / 2.0)
             for k in range(3, n + 1):
                 c[k] = EN(c[k].v, c[k].e, inf)
